@@ -105,6 +105,9 @@ def make_case(rng, i):
         info['kind'] = 'continued'
         if kind == 1:
             dt2, n2 = dict(dt), rng.randint(2, 60)
+            if rng.random() < 0.4 and udt in ('sec', 'ms') and T['u'] == udt:
+                # the same solver, the same dt and the same NUMBER for the duration -- in the next larger unit
+                info['same_numbers_other_unit'] = True
         elif kind == 2:
             u2 = rng.choice([u for u in SI.units('TimeInterval') if u != udt])
             dt2, n2 = GEN.reexpress(dt, u2), rng.randint(2, 60)
@@ -120,6 +123,12 @@ def make_case(rng, i):
         T2 = GEN.Q('TimeInterval', float(Decimal(repr(dt2['v'])) * n2), dt2['u'])
         if rng.random() < 0.4:
             T2 = GEN.reexpress(T2, rng.choice(SI.units('TimeInterval')))
+        if info.get('same_numbers_other_unit'):
+            T2 = GEN.Q('TimeInterval', T['v'], {'ms': 'sec', 'sec': 'min'}[udt])
+            n2 = round(GEN.qsi(T2) / GEN.qsi(dt2))
+            if n2 > 20000:
+                T2 = GEN.Q('TimeInterval', float(Decimal(repr(dt2['v'])) * 60), dt2['u'])
+                n2 = 60
         sched.append({'op': 'run', 'dt': dt2, 'T': T2})
         info['n2'] = n2
     elif kind == 5:
